@@ -162,3 +162,14 @@ def bitnot16(a):
         from engine import chmodels
         return chmodels.bitnot16(a)
     return 65535 - a
+
+
+def eqdict():
+    """An empty dict for state that pymodbus keys by a (possibly symbolic) integer id.
+
+    Under the solver: CrossHair's hash-free mapping (keys compared by equality, so a symbolic key is not
+    concretised); in concrete replay: a real dict. Same observable behaviour for integer keys."""
+    if STATE["symbolic"]:
+        from crosshair.simplestructs import ShellMutableMap, SimpleDict
+        return ShellMutableMap(SimpleDict([]))
+    return {}
